@@ -16,11 +16,14 @@ def worker(ck: Check, job):
     infl = z3.BitVec('inflection', 8)
     slots, markers, side = ORDINALS[code](digs, f, infl)
     assm = digs.domain(dom) + list(side) + list(L.side_constraints(digs, f)) + [z3.Not(digs.is_zero())]
+    if 'std' in job:
+        # standard spelling only (no regional tens): the variants are decided on the ranks below 100
+        assm += [z3.Not(f[k_]) for k_ in ('sept', 'huit', 'oct', 'non') if k_ in f]
     if only_base_inflection:
         assm.append(infl == 0)
         # drop the alternatives of other inflections up front (keeps the slots small)
         slots = [[(c, w) for c, w in alts if not _mentions_other_inflection(c, infl)] for alts in slots]
-    label = '%s/%s%s' % (code, dom, '/base-inflection' if only_base_inflection else '')
+    label = '%s/%s%s%s' % (code, dom, '/base-inflection' if only_base_inflection else '', '/standard-tens' if 'std' in job else '')
     words_of = lambda m: concrete_phrase(slots, m)
 
     def marker_of(m):
@@ -135,7 +138,10 @@ def run(ck: Check):
     for c in langs:
         if MAX_DIGITS[c] == 4:
             jobs.append((c, 'low4'))            # es/pt: ranks 1..1999 (the speller constrains the thousands digit)
-        elif ck.tier == 'quick' and c in ('de', 'fr'):
+        elif ck.tier == 'quick' and c == 'fr':
+            jobs.append((c, 'low3', 'base', 'std'))   # all ranks below 1000, base form, standard (non-regional) tens ...
+            jobs.append((c, 'low2'))                  # ... and every inflection and regional variant for ranks below 100
+        elif ck.tier == 'quick' and c == 'de':
             jobs.append((c, 'low3', 'base'))      # all ranks below 1000 in the base form ...
             jobs.append((c, 'low2'))              # ... and every declension ending for ranks below 100
         elif ck.tier == 'quick':
